@@ -55,6 +55,10 @@ def run(chk, repo: Repo):
     chk.rule("C04-R10", "a log-determinant read off a matrix diagonal (sum of logs of diag(M)) is used only where M is diagonal by the branch's own structural "
                         "test or is a Cholesky factor; for a general square root R (any R with R.T R = prec is documented as valid) it is not log det", floor=4)
     _r10(chk, repo)
+    chk.rule("C04-R11", "densities do not depend on the integer/float dtype of their parameters: no dtype-preserving constructor with a NaN/inf/fractional fill "
+                        "and no np.reciprocal on unconverted parameters in the distribution modules", floor=15)
+    from ..dtypelint import dtype_rule
+    dtype_rule(chk, repo, "C04-R11", ("cuqi/distribution/",))
 
 
 def _r10(chk, repo):
